@@ -48,7 +48,7 @@ func vmNewFn(c *Ctx, pkg *packages.Package, fd *ast.FuncDecl) *vmFn {
 			n = r + "." + n
 		}
 	}
-	return &vmFn{c: c, pkg: pkg, info: pkg.TypesInfo, fd: fd, name: short + "." + n}
+	return &vmFn{c: c, pkg: pkg, info: vmInfo(c), fd: fd, name: short + "." + n}
 }
 
 func vmFuncs(c *Ctx, rel string) []*vmFn {
@@ -374,10 +374,51 @@ func (r *vmStackRoles) names() string {
 	return strings.Join(a, " ")
 }
 
+// vmLenPlus parses e as len(x.F)+k, looking through locals of fn that are
+// defined exactly once (`top := len(core.Stack) - 1`).
+func vmLenPlus(info *types.Info, e ast.Expr, f *types.Var, defs func(types.Object) ast.Expr, depth int) (k int64, ok bool) {
+	e = vmStripConv(info, e)
+	if depth > 4 {
+		return 0, false
+	}
+	switch x := e.(type) {
+	case *ast.CallExpr:
+		if id, isId := x.Fun.(*ast.Ident); isId && len(x.Args) == 1 {
+			if b, isB := info.Uses[id].(*types.Builtin); isB && b.Name() == "len" && vmFieldOf(info, x.Args[0]) == f {
+				return 0, true
+			}
+		}
+	case *ast.Ident:
+		if defs != nil {
+			if def := defs(vmObjOf(info, x)); def != nil {
+				return vmLenPlus(info, def, f, defs, depth+1)
+			}
+		}
+	case *ast.BinaryExpr:
+		if x.Op == token.ADD || x.Op == token.SUB {
+			if tv := info.Types[x.Y]; tv.Value != nil {
+				if n, exact := constant.Int64Val(constant.ToInt(tv.Value)); exact {
+					if k0, ok0 := vmLenPlus(info, x.X, f, defs, depth+1); ok0 {
+						if x.Op == token.ADD {
+							return k0 + n, true
+						}
+						return k0 - n, true
+					}
+				}
+			}
+		}
+	}
+	return 0, false
+}
+
 // vmSliceWrite classifies an assignment `lhs = rhs` to field f: +n for an
 // append of n elements, -k for a reslice dropping k trailing elements, ok=false
 // when it is some other write.
 func vmSliceWrite(info *types.Info, lhs, rhs ast.Expr, f *types.Var) (delta int, ok bool) {
+	return vmSliceWriteIn(info, lhs, rhs, f, nil)
+}
+
+func vmSliceWriteIn(info *types.Info, lhs, rhs ast.Expr, f *types.Var, defs func(types.Object) ast.Expr) (delta int, ok bool) {
 	if vmFieldOf(info, lhs) != f {
 		return 0, false
 	}
@@ -390,16 +431,15 @@ func vmSliceWrite(info *types.Info, lhs, rhs ast.Expr, f *types.Var) (delta int,
 		}
 		return 0, false
 	}
-	if sl, isSl := rhs.(*ast.SliceExpr); isSl && sl.Low == nil && sl.High != nil && vmFieldOf(info, sl.X) == f {
-		// x.F[:len(x.F)-k]
-		if be, isBe := ast.Unparen(sl.High).(*ast.BinaryExpr); isBe && be.Op == token.SUB {
-			if lc, isLc := ast.Unparen(be.X).(*ast.CallExpr); isLc && len(lc.Args) == 1 && vmFieldOf(info, lc.Args[0]) == f {
-				if tv := info.Types[be.Y]; tv.Value != nil {
-					if k, exact := constant.Int64Val(constant.ToInt(tv.Value)); exact && k > 0 {
-						return -int(k), true
-					}
-				}
+	if sl, isSl := rhs.(*ast.SliceExpr); isSl && sl.High != nil && vmFieldOf(info, sl.X) == f && !sl.Slice3 {
+		if sl.Low != nil {
+			if tv := info.Types[sl.Low]; tv.Value == nil || tv.Value.ExactString() != "0" {
+				return 0, false
 			}
+		}
+		// x.F[:len(x.F)-k], the bound possibly held in a local
+		if k, isLen := vmLenPlus(info, sl.High, f, defs, 0); isLen && k < 0 {
+			return int(k), true
 		}
 	}
 	return 0, false
@@ -407,7 +447,8 @@ func vmSliceWrite(info *types.Info, lhs, rhs ast.Expr, f *types.Var) (delta int,
 
 // vmDiscoverStack finds the push/pop methods of field f among the functions
 // of the package: a method qualifies when its body is straight-line and
-// contains exactly one write to f, which is a push or a pop.
+// contains exactly one write to f, which is a push or a pop (decided by the
+// shape of the write, whatever the locals are called).
 func vmDiscoverStack(fns []*vmFn, f *types.Var) *vmStackRoles {
 	r := &vmStackRoles{field: f, push: map[*types.Func]int{}, pop: map[*types.Func]int{}}
 	for _, fn := range fns {
@@ -415,13 +456,20 @@ func vmDiscoverStack(fns []*vmFn, f *types.Var) *vmStackRoles {
 		if obj == nil {
 			continue
 		}
+		fn := fn
+		defs := func(o types.Object) ast.Expr {
+			if o == nil {
+				return nil
+			}
+			return vmSingleDef(fn, o)
+		}
 		writes, delta, clean := 0, 0, true
 		for _, s := range fn.fd.Body.List {
 			switch x := s.(type) {
 			case *ast.AssignStmt:
 				for i, l := range x.Lhs {
 					if vmFieldOf(fn.info, l) == f && i < len(x.Rhs) {
-						d, ok := vmSliceWrite(fn.info, l, x.Rhs[i], f)
+						d, ok := vmSliceWriteIn(fn.info, l, x.Rhs[i], f, defs)
 						writes++
 						if !ok {
 							clean = false
@@ -438,7 +486,7 @@ func vmDiscoverStack(fns []*vmFn, f *types.Var) *vmStackRoles {
 				}
 			}
 		}
-		if writes == 1 && clean && len(fn.fd.Body.List) <= 4 {
+		if writes == 1 && clean && len(fn.fd.Body.List) <= 6 {
 			if delta > 0 {
 				r.push[obj] = delta
 			} else if delta < 0 {
@@ -547,8 +595,9 @@ func vmCloneSt(s *vmSt) *vmSt {
 }
 
 type vmPath struct {
-	ev []vmEv
-	o  outcome
+	ev    []vmEv
+	o     outcome
+	binds map[ast.Stmt]vmBindKind // bindings introduced by inlining (nil without)
 }
 
 // decisions renders the branch decisions of a path (the witness).
@@ -766,6 +815,7 @@ type vmRewriter struct {
 	selects map[*ast.SwitchStmt]*ast.SelectStmt
 	markers map[ast.Stmt]any
 	replace func(s ast.Stmt) (any, bool) // payload → replace s by a marker
+	inl     *vmInl                       // helper inlining (nil: none)
 }
 
 func vmNewRewriter() *vmRewriter {
@@ -796,6 +846,14 @@ func (rw *vmRewriter) stmt(s ast.Stmt) ast.Stmt {
 			es := &ast.ExprStmt{X: &ast.Ident{NamePos: s.Pos(), Name: "__vm_marker"}}
 			rw.markers[es] = payload
 			return es
+		}
+	}
+	if rw.inl != nil {
+		if out, ok := rw.inl.tryStmt(rw, s); ok {
+			return out
+		}
+		if ret, ok := s.(*ast.ReturnStmt); ok && rw.inl.ret != nil && rw.inl.ret.label != "" {
+			return rw.inl.rewriteReturn(rw, ret)
 		}
 	}
 	switch x := s.(type) {
@@ -866,6 +924,8 @@ type vmWalkOpts struct {
 	correlate bool // prune paths that decide the same side-effect-free condition differently
 	maxPaths  int
 	unroll    int
+	// inline: splice the bodies of these callees into the walked body (see rules_vm_inline.go)
+	inline func(callee *vmFn, call *ast.CallExpr) bool
 }
 
 type vmWalkResult struct {
@@ -875,7 +935,9 @@ type vmWalkResult struct {
 	iters       []vmPath
 	overflow    bool
 	unsupported []token.Pos
-	body        *ast.BlockStmt // rewritten body
+	body        *ast.BlockStmt          // rewritten body
+	binds       map[ast.Stmt]vmBindKind // synthetic bindings of inlined calls (nil without inlining)
+	inlined     map[*types.Func]*vmFn   // callees spliced in
 }
 
 func vmWalk(o vmWalkOpts) *vmWalkResult {
@@ -888,9 +950,32 @@ func vmWalk(o vmWalkOpts) *vmWalkResult {
 	}
 	rw := vmNewRewriter()
 	rw.replace = o.replace
+	inline := o.inline
+	if inline == nil {
+		inline = vmDefaultInline(fn)
+	}
+	if inline != nil {
+		rw.inl = vmNewInl(c, inline)
+	}
 	nb := rw.block(body)
 	res := &vmWalkResult{body: nb}
 	stable := vmStableObjs(info, fn.fd)
+	var binds map[ast.Stmt]vmBindKind
+	if rw.inl != nil {
+		binds = rw.inl.binds
+		res.binds, res.inlined = binds, rw.inl.used
+		for _, g := range rw.inl.used {
+			for o := range vmStableObjs(info, g.fd) {
+				stable[o] = true
+			}
+		}
+	}
+	condKey := func(st *vmSt, e ast.Expr) string {
+		if binds != nil {
+			return vmCanonKey(info, binds, st.ev, len(st.ev), e)
+		}
+		return vmCondKey(info, e)
+	}
 
 	isPanic := func(s ast.Stmt) bool {
 		es, ok := s.(*ast.ExprStmt)
@@ -932,10 +1017,20 @@ func vmWalk(o vmWalkOpts) *vmWalkResult {
 					return st, false
 				}
 			}
+			if binds != nil {
+				if val, known := vmDecideAtom(c, info, binds, st.ev, cond); known {
+					if val != taken {
+						return st, false
+					}
+					if _, isId := ast.Unparen(cond).(*ast.Ident); isId {
+						return st, true // the value of an inlined boolean result: not a decision of its own
+					}
+				}
+			}
 			g := &vmGather{info: info, st: st}
 			g.expr(cond)
 			if o.correlate && vmPureCond(info, cond, stable) {
-				key := vmCondKey(info, cond)
+				key := condKey(st, cond)
 				if prev, seen := st.conds[key]; seen && prev != taken {
 					return st, false
 				}
@@ -946,12 +1041,19 @@ func vmWalk(o vmWalkOpts) *vmWalkResult {
 		},
 		OnCase: func(st *vmSt, sw *ast.SwitchStmt, vals, others []ast.Expr) (*vmSt, bool) {
 			selStmt, isSel := rw.selects[sw]
+			if !isSel && vmContSwitchPos[sw.Pos()] {
+				// the opcode switch of a function the dispatcher handed its instruction to: only the
+				// clauses compatible with the clause taken in the caller are feasible
+				if set, _, _, seen := vmDispNarrow(info, st.ev, vals, others, true); seen && len(set) == 0 {
+					return st, false
+				}
+			}
 			if !isSel {
 				// constant tag (dead configuration switches): only the matching clause is feasible
 				g := &vmGather{info: info, st: st}
 				g.expr(sw.Tag)
 				if o.correlate && vmPureCond(info, sw.Tag, stable) {
-					key := "switch " + vmCondKey(info, sw.Tag)
+					key := "switch " + condKey(st, sw.Tag)
 					cur := vmCaseKey(vals)
 					for k := range st.conds {
 						if strings.HasPrefix(k, key+"=") && k != key+"="+cur && st.conds[k] {
@@ -987,7 +1089,7 @@ func vmWalk(o vmWalkOpts) *vmWalkResult {
 	w.OnLoopIter = func(loop ast.Stmt, before, after *vmSt) {
 		after.ev = append(after.ev, vmEv{K: evIter, Loop: loop, From: len(before.ev), Pos: loop.Pos()})
 		if len(res.iters) < 50000 {
-			res.iters = append(res.iters, vmPath{ev: append([]vmEv(nil), after.ev...), o: outcome{kind: cContinue, at: loop.Pos()}})
+			res.iters = append(res.iters, vmPath{ev: append([]vmEv(nil), after.ev...), o: outcome{kind: cContinue, at: loop.Pos()}, binds: binds})
 		}
 	}
 	w.Exit = func(st *vmSt, oc outcome) {
@@ -997,12 +1099,33 @@ func vmWalk(o vmWalkOpts) *vmWalkResult {
 			g := &vmGather{info: info, st: st, deferred: true}
 			if lit, ok := ast.Unparen(d.Call.Fun).(*ast.FuncLit); ok {
 				g.deferredBody(lit.Body, false)
-			} else {
-				g.expr(d.Call.Fun)
-				g.add(vmEv{K: evCall, Fn: CalleeOf(info, d.Call), Call: d.Call, Pos: d.Pos()})
+				continue
 			}
+			if rw.inl != nil {
+				// `defer leave()` where leave is a local closure, or a helper the rule wants to see through
+				if id, isId := ast.Unparen(d.Call.Fun).(*ast.Ident); isId {
+					if r, _, _ := vmResolveAt(info, binds, st.ev, len(st.ev), id); r != nil {
+						if lit, ok := ast.Unparen(r).(*ast.FuncLit); ok && len(d.Call.Args) == 0 {
+							g.deferredBody(lit.Body, false)
+							continue
+						}
+					}
+				}
+				if call, callee := rw.inl.inlinable(d.Call); callee != nil {
+					rw.inl.used[CalleeOf(info, call).Origin()] = callee
+					g.add(vmEv{K: evMarker, Payload: vmInlineMark{fn: callee, call: call, enter: true}, Pos: d.Pos()})
+					for _, b := range rw.inl.bindings(call, callee) {
+						g.stmt(b)
+					}
+					g.deferredBody(callee.fd.Body, false)
+					g.add(vmEv{K: evMarker, Payload: vmInlineMark{fn: callee, call: call, enter: false}, Pos: d.Pos()})
+					continue
+				}
+			}
+			g.expr(d.Call.Fun)
+			g.add(vmEv{K: evCall, Fn: CalleeOf(info, d.Call), Call: d.Call, Pos: d.Pos()})
 		}
-		res.paths = append(res.paths, vmPath{ev: st.ev, o: oc})
+		res.paths = append(res.paths, vmPath{ev: st.ev, o: oc, binds: binds})
 	}
 	w.Run(nb, &vmSt{conds: map[string]bool{}})
 	res.overflow = w.Overflow
@@ -1169,11 +1292,75 @@ func vmTopSwitches(c *Ctx, info *types.Info, body *ast.BlockStmt) []*ast.SwitchS
 	return out
 }
 
+// vmDispNarrow: the opcodes a path through the instruction dispatcher is
+// handling, narrowed by every dispatch switch it went through (the root's and
+// those of the functions the root hands the instruction to). order lists them
+// in the order of the last explicit clause; explicit=false when only default
+// clauses were taken.
+func vmDispNarrow(info *types.Info, ev []vmEv, extraVals, extraOthers []ast.Expr, withExtra bool) (set map[*types.Const]bool, order []*types.Const, explicit, seen bool) {
+	set = map[*types.Const]bool{}
+	for _, k := range vmDispEnum {
+		set[k] = true
+	}
+	apply := func(vals, others []ast.Expr) {
+		seen = true
+		if vals != nil {
+			explicit = true
+			in := map[*types.Const]bool{}
+			order = order[:0]
+			for _, x := range vals {
+				if k := ConstOf(info, x); k != nil {
+					in[k] = true
+					order = append(order, k)
+				}
+			}
+			for k := range set {
+				if !in[k] {
+					delete(set, k)
+				}
+			}
+			return
+		}
+		for _, x := range others {
+			if k := ConstOf(info, x); k != nil {
+				delete(set, k)
+			}
+		}
+	}
+	for _, e := range ev {
+		if e.K == evCase && !e.Select && (e.Pos == vmDispRootPos || vmContSwitchPos[e.Pos]) {
+			apply(e.Vals, e.Others)
+		}
+	}
+	if withExtra {
+		apply(extraVals, extraOthers)
+	}
+	return
+}
+
 // vmUnitOf: the label of the top-level enum switch clause a path went through
 // ("" when the function has no such switch or the path did not enter one).
+// For the VM's instruction dispatcher the label names the opcode(s) the path
+// handles, also when the clause is reached through several dispatch functions.
 func vmUnitOf(info *types.Info, tops map[token.Pos]bool, p *vmPath) string {
 	for _, e := range p.ev {
 		if e.K == evCase && !e.Select && tops[e.Pos] {
+			if e.Pos == vmDispRootPos && len(vmContSwitchPos) > 0 {
+				set, order, explicit, _ := vmDispNarrow(info, p.ev, nil, nil, false)
+				if !explicit {
+					return "default"
+				}
+				var v []string
+				for _, k := range order {
+					if set[k] {
+						v = append(v, k.Name())
+					}
+				}
+				if len(v) == 0 {
+					return ""
+				}
+				return "case " + strings.Join(v, ",")
+			}
 			if e.Vals == nil {
 				return "default"
 			}
@@ -1260,8 +1447,14 @@ type vmSkipped struct{}
 // bounded without changing any verdict.
 func vmSlicer(relevant func(n ast.Node) bool) func(s ast.Stmt) (any, bool) {
 	return func(s ast.Stmt) (any, bool) {
-		switch s.(type) {
-		case *ast.IfStmt, *ast.ForStmt, *ast.RangeStmt, *ast.SwitchStmt, *ast.TypeSwitchStmt, *ast.SelectStmt:
+		switch x := s.(type) {
+		case *ast.SwitchStmt:
+			if vmContSwitchPos[x.Pos()] {
+				// the opcode switch of a function the instruction dispatcher hands its instruction
+				// to: its clauses name the unit of the path, it is never collapsed
+				return nil, false
+			}
+		case *ast.IfStmt, *ast.ForStmt, *ast.RangeStmt, *ast.TypeSwitchStmt, *ast.SelectStmt:
 		default:
 			return nil, false
 		}
